@@ -5,6 +5,7 @@
 import NetflowModel.Preds
 import NetflowModel.Wire
 import NetflowModel.Generated
+import NetflowModel.Json
 namespace Netflow.Preds
 open Netflow
 
@@ -41,5 +42,42 @@ def parseOracles (c : Config) (_st : PState) (buf : Bytes) (a : ParseAns) (sv : 
         ("C06", agree (fun v => v == 9 || v == 10))]
      else []
    | none => [])
+
+/-! ### C16 — the JSON text produced by serde_json, read back, is the tree `toJ` of the decoded value -/
+
+def jnames : JNames :=
+  { proto := Generated.protoNames, v9Field := Generated.v9FieldNames, ipField := Generated.ipFieldNames,
+    scope := Generated.scopeNames, ipv4Fields := Generated.ipv4Fields }
+
+partial def jmatch : JVal → Lean.Json → Bool
+  | .null, .null => true
+  | .num n, .num jn => jn.exponent == 0 && jn.mantissa == n
+  | .f64 bits, j =>
+    let f := Float.ofBits bits.toUInt64
+    if f.isNaN || f.isInf then j == Lean.Json.null
+    else match j with
+      | .num jn => if f == 0.0 then jn.mantissa == 0 else jn.toFloat.toBits == f.toBits   -- the reader drops the sign of -0.0
+      | _ => false
+  | .str b, .str s => s.toUTF8.toList == b
+  | .anyStr, .str _ => true
+  | .arr xs, .arr ys => xs.length == ys.size && (xs.zip ys.toList).all fun p => jmatch p.1 p.2
+  | .obj kvs, .obj m =>
+    kvs.length == m.size && kvs.all fun kv =>
+      match m.get? kv.1 with
+      | some v => jmatch kv.2 v
+      | none => false
+  | _, _ => false
+
+/-- one packet's serialisation result as reported by the harness: {"ok": text} | "err" | "panic" | "nondeterministic" -/
+def jsonOk (c : Config) (p : Packet) (j : Lean.Json) : Bool :=
+  match j.getObjValAs? String "ok" with
+  | .ok text =>
+    match Lean.Json.parse text with
+    | .ok tree => jmatch (toJ c jnames p) tree
+    | .error _ => false
+  | .error _ => false
+
+def jsonAllOk (c : Config) (pkts : List Packet) (js : List Lean.Json) : Bool :=
+  pkts.length == js.length && (pkts.zip js).all fun p => jsonOk c p.1 p.2
 
 end Netflow.Preds
